@@ -1,5 +1,5 @@
 (* CliFacts.v: the CLI exit status reflects the library's verdict (C17). *)
-From CCT Require Import Prelude Hex Num Time Formats Json Auth Signing Cli.
+From CCT Require Import Prelude Hex Num Time Formats Json JsonParse Auth Signing Cli.
 From CCT.Gen Require Params Entry.
 From CCT.proofs Require Import HexFacts SigFacts AuthFacts SchemaFacts FamilyFacts.
 From Coq Require Import Lia.
@@ -43,6 +43,20 @@ Section CliFacts.
       + destruct (key_is (U"root") ty) eqn:Ek; [apply key_is_eq in Ek; contradiction|]. rewrite Hv. reflexivity.
   Qed.
 
+  (* from the files on disk: status zero with the success line iff both files exist, load as JSON (through the byte layer of json.load)
+     and the library accepts the second on the basis of the first *)
+  Theorem files_exit_zero_iff tf uf :
+    cli_verify_metadata_files ed_verify sha256 tf uf = Exit 0 true <->
+    exists tb ub t' u', tf = Some tb /\ uf = Some ub /\ load_file tb = Ok t' /\ load_file ub = Ok u' /\ lib_accepts t' u'.
+  Proof.
+    unfold cli_verify_metadata_files, loaded. split.
+    - intros H.
+      destruct uf as [ub|]; [destruct (load_file ub) as [u'| |] eqn:Eu|]; (destruct tf as [tb|]; [destruct (load_file tb) as [t'| |] eqn:Et|]);
+        try discriminate H; apply verify_exit_zero_iff in H as (t0 & u0 & Et0 & Eu0 & Hacc); try discriminate Et0; try discriminate Eu0.
+      injection Et0 as <-. injection Eu0 as <-. exists tb, ub, t', u'. auto.
+    - intros (tb & ub & t' & u' & -> & -> & Et & Eu & Hacc). rewrite Et, Eu. apply verify_exit_zero_iff. eauto.
+  Qed.
+
   (* the success line is printed exactly when the status is zero; every rejection or error gives a non-zero status *)
   Theorem status_zero_iff_success t u z :
     status (cvm t u) = Some z -> (z = 0%Z <-> cvm t u = Exit 0 true).
@@ -56,6 +70,14 @@ Section CliFacts.
       destruct (is_cct e); cbn; intros [= <-]; split; try discriminate; intros H; contradiction.
     - destruct (verify_delegation ed_verify sha256 ty u' t' (VBool false)) as [[]|e|]; [cbn; intros [= <-]; split; auto | | discriminate].
       destruct (is_cct e && is_str ty && utf8_encodable ty); cbn; intros [= <-]; split; try discriminate; intros H; contradiction.
+  Qed.
+
+  Theorem files_status_zero_iff_success tf uf z :
+    status (cli_verify_metadata_files ed_verify sha256 tf uf) = Some z ->
+    (z = 0%Z <-> cli_verify_metadata_files ed_verify sha256 tf uf = Exit 0 true).
+  Proof.
+    unfold cli_verify_metadata_files. destruct (loaded uf) as [u'|]; [|discriminate]. destruct (loaded tf) as [t'|]; [|discriminate].
+    apply status_zero_iff_success.
   Qed.
 
   Theorem reject_codes t u c b : cvm t u = Exit c b -> (c = 0%Z /\ b = true) \/ ((c = 10%Z \/ c = 20%Z) /\ b = false).
